@@ -9,7 +9,30 @@ from __future__ import annotations
 import guardcases as gc
 import lib
 
-FLAVOURS = ["sync", "async", "sync-in-loop", "sync-collab-async", "async-collab-async"]
+FLAVOURS = ["sync", "async", "sync-in-loop", "sync-collab-async", "async-collab-async", "sync-collab-awaitable", "async-collab-awaitable"]
+
+
+def deep_condition_probes(run: lib.Run) -> None:
+    """conditions nested far deeper than the interpreter's call stack allows (the schema is recursive and accepts them; its validator,
+    the wire format of the model and the evaluator all run out of stack, so these are judged on the real engine only): raising is
+    outside the statement, but a PERMIT needs an applicable rule at any depth — a false or ill-typed leaf never permits"""
+    import real
+    req = gc.REQUESTS[0]
+    for depth in (150, 700, 1500):
+        for leaf, truth in (({"==": [1, 2]}, False), ({"<": ["a", 1]}, None), ({"==": [1, 1]}, True)):
+            for op in ("and", "or", "not"):
+                c = leaf
+                for _ in range(depth if op != "not" else depth * 2):        # an even number of `not`s: the leaf's value
+                    c = {op: [c]} if op != "not" else {"not": c}
+                pol = {"algorithm": "deny-overrides", "rules": [{"id": "deep", "effect": "permit", "actions": ["read"], "resource": {"type": "doc"},
+                                                                  "condition": c}]}
+                out = real.run_guard(pol, req, {"strict": False})
+                run.evaluations += 1
+                run.count("deep-condition:" + ("raised" if "raised" in out else out["ok"]["effect"]))
+                if "ok" in out and out["ok"]["allowed"] and truth is not True:
+                    run.spec_failures.append({"policy": {"rules": f"one permit rule whose condition is {leaf} under {depth} nested {op}"}, "request": req,
+                                              "cfg": {"strict": False}, "impl": out, "model": None,
+                                              "spec": "permit although the only rule's condition is false / ill-typed (deeply nested condition)"})
 
 
 def run_cases(run: lib.Run, audit: dict, scale: int = 1):
@@ -20,6 +43,9 @@ def run_cases(run: lib.Run, audit: dict, scale: int = 1):
     cases += list(gc.random_cases(run.seed * 31337 + 1, (2500 if quick else 25000) * scale, hostile=0.15, rel=0.25, nested=0.3))
     res = gc.run_batch(cases, consts, flavour_of=lambda i: "sync" if i < n_enum else FLAVOURS[i % len(FLAVOURS)])
     for i, (pol, req, cfg, out, model, extra) in enumerate(res):
+        if out.get("raised") == "RecursionError":
+            run.count("outside-domain:interpreter stack exhausted")
+            continue
         run.count(gc.outcome_class(out))
         nontrivial = "ok" in out and out["ok"]["reason"] in ("matched", "explicit_deny", "obligation_failed")
         run.case([pol, req, cfg], nontrivial, {"policy": pol, "request": req, "cfg": cfg, "impl": out} if i >= n_enum else None)
@@ -42,6 +68,7 @@ def check(run: lib.Run, audit: dict) -> int:
     if not audit["ok"]:
         raise lib.CheckError(f"Lean build/audit failed at {audit['stage']}: {audit.get('log') or audit.get('forbidden') or audit.get('bad_axioms')}")
     run_cases(run, audit, scale=run.boost)
+    deep_condition_probes(run)
     violations = []
     if run.disagreements and not run.spec_failures:
         run_cases(run, audit, scale=4)
